@@ -204,6 +204,11 @@ func (fv *FV) execGhost(st *State, g *GhostStmt, pos token.Pos) {
 				v.T = cur.T
 			}
 			v.Lit = false
+			if v.Sort == sBool && strings.Contains(v.S, "(forall ") {
+				// a ghost flag that abbreviates a quantified formula is named once; every use is then the flag, not
+				// another copy of the quantifier
+				v = fv.nameTerm(st, l.Name, v)
+			}
 			st.ghost[l.Name] = v
 		case *SIndex:
 			id, ok := l.X.(*SIdent)
